@@ -103,6 +103,23 @@ def coq_props(mod):
     return info
 
 
+def coqchk(mod):
+    """Thorough tier: re-check the compiled Props library and everything it depends on with the independent checker; list the axioms it reports."""
+    lib = "PV." + mod.PROPS[:-2].replace("/", ".")
+    t0 = time.time()
+    try:
+        p = subprocess.run(["timeout", "1500", "coqchk", "-silent", "-o", "-R", ".", "PV", lib], cwd=model.COQ, capture_output=True, text=True)
+        out = p.stdout + p.stderr
+        ok = p.returncode == 0
+    except Exception as e:  # noqa
+        out, ok = str(e), False
+    ax = ""
+    m = re.search(r"(CONTEXT SUMMARY.*)", out, re.S)
+    if m:
+        ax = re.sub(r"\s+", " ", m.group(1))[:1500]
+    return {"ok": ok, "summary": ax or out[-800:], "seconds": round(time.time() - t0, 1)}
+
+
 def write_replay(pid, payload):
     os.makedirs(REPLAYS, exist_ok=True)
     n = 0
@@ -205,6 +222,7 @@ def main(argv=None):
         # 3. prove
         proof = coq_props(mod)
         theorems = model.theorems_of(mod.PROPS)
+        chk = coqchk(mod) if (tier == "thorough" and proof["ok"]) else None
         # model driver
         driver_ok, drv_out = model.build_driver(mod.ID)
         tie_broken = []
@@ -215,6 +233,8 @@ def main(argv=None):
         if not proof["ok"]:
             tie_broken.append("proof: " + ("; ".join(proof["failed_at"]) or "Props/%s.v does not build" % pid))
             tie_broken += [g for g in gen_notes if any(g.split(": ")[1][:-2] in fa for fa in proof["failed_at"])]
+        if chk is not None and not chk["ok"]:
+            tie_broken.append("coqchk rejected the compiled library: " + chk["summary"][-400:])
         if not driver_ok:
             tie_broken.append("model does not build: " + drv_out[-400:])
             tie_broken += [g for g in gen_notes if g.split(": ")[1][:-2] in drv_out and g not in tie_broken]
@@ -315,6 +335,7 @@ def main(argv=None):
                 "known_findings_reproduced": {k: v["count"] for k, v in known.items()},
                 "exhaustive": bool(getattr(mod, "EXHAUSTIVE", {}).get(tier, False)),
                 "proof_seconds": round(proof["seconds"], 1),
+                "coqchk": chk,
             },
             "assumptions": list(getattr(mod, "ASSUMPTIONS", [])),
             "wall_s": round(wall, 2), "violations": len(violations),
